@@ -52,10 +52,17 @@ theorem ingressWhen_tie (delta wait z now : Int) (last : Option Int) (hd : 0 ≤
       · simp [h1, h2]
       · simp [h1, h2]
 
-/-- `Forget` (called by `WorkQueue.process` after every successful sync) does not touch the limiter state:
-the model has no Forget step. -/
+/-- `Forget` (called by `WorkQueue.process` after every successful sync) does not touch the limiter state -/
 theorem reloadForget_tie (r : GoLib.ReloadHAProxy) (now : Int) : CodeC13.reloadForget r now = r := rfl
 theorem ingressForget_tie (r : GoLib.IngressReconciler) (now : Int) : CodeC13.ingressForget r now = r := rfl
+
+/-- … i.e. it is the `Forget` parameter `C13.forgetId` under which the duration theorems of `Props.C13`
+(`simulateD_single`, `reload_spacing_dur`, `no_extra_runs`, …) are stated -/
+theorem reloadForget_is_forgetId (interval z now : Int) (last : Option Int) :
+    (CodeC13.reloadForget { interval := interval, last := enc z last } now).last = enc z (C13.forgetId last now) := rfl
+theorem ingressForget_is_forgetId (delta wait z now : Int) (last : Option Int) :
+    (CodeC13.ingressForget { delta := delta, wait := wait, last := enc z last } now).last
+      = enc z (C13.forgetId last now) := rfl
 
 /-- `NumRequeues` is constantly 0 (client-go reads it only for metrics / max-retries decisions) -/
 theorem numRequeues_tie (r : GoLib.ReloadHAProxy) (q : GoLib.IngressReconciler) :
